@@ -243,7 +243,23 @@ def worker_world():
     for e in ('ParseException', 'SpectrumDictBuilderException', 'MeshDictBuilderException'):
         w.globals[e] = SClass(e)
     w.globals['ParserElement'] = SNamespace('ParserElement', dropped=True)
-    w.globals['PYPARSING_LOCK'] = SNamespace('PYPARSING_LOCK')
+    # the lock: `with PYPARSING_LOCK:` (hook of parser_setup) or explicit acquire() / release() calls -- both counted, so that "held while parsing" and
+    # "released on every way out" are obligations of the code as written
+    lock = SNamespace('PYPARSING_LOCK')
+
+    def acquire(I, blocking=True, timeout=-1):
+        if blocking is False or (isinstance(blocking, SV)):
+            if not I.path.cond(z3.Bool(I.path.name('lock_was_free'))):
+                return False
+        I.lock_depth += 1
+        return True
+
+    def release(I):
+        I.lock_depth -= 1
+        return None
+    lock.members['acquire'] = acquire
+    lock.members['release'] = release
+    w.globals['PYPARSING_LOCK'] = lock
 
     class Parsed(ClassModel):
         name = 'ParseResults'
@@ -327,7 +343,13 @@ def run_unit(unit, tier, seed, known):
         w.exc_parents['KeyError'] = 'LookupError'
         return {'functions': [D(verify_function(w, c_global_variables(), setup=gv_setup))]}
     if unit == 'worker':
-        return {'functions': [D(verify_function(worker_world(), c_worker(), setup=parser_setup))]}
+        def lock_released(I, scope, outcome):
+            # whatever the way out (the parsed list, ParserException for a rejected edition, anything else): the re-entrant lock is not left held -- a thread that
+            # stays alive (a pool worker) would keep every other parse of the process waiting for ever
+            what = 'normal return' if outcome[0] == 'return' else f'exception {getattr(outcome[1], "cls", outcome[1])}'
+            I.path.oblige(f'{PARSE}::Parser._parse_listing_worker::exit-paths::C11-the-pyparsing-lock-is-released-on-every-way-out', I.lock_depth == 0, kind='post',
+                          meta={'expr': f'PYPARSING_LOCK is not held when the function is left ({what}; acquisitions minus releases = {I.lock_depth})'})
+        return {'functions': [D(verify_function(worker_world(), c_worker(), setup=parser_setup, extra_check=lock_released))]}
     raise KeyError(unit)
 
 
